@@ -135,3 +135,157 @@ Proof.
   - destruct (dfan_image_spec true (d_data d) maxlen Hm H4) as [A B]. unfold dfan_len in A, B. rewrite A, B. reflexivity.
   - destruct (dfan_image_spec false (d_data d) maxlen Hm H4) as [A B]. unfold dfan_len in A, B. rewrite A, B. reflexivity.
 Qed.
+
+(* ================= 3. the closed file (no AN session): the map is the list of descriptors ===================== *)
+Lemma Sim_transfer : forall h a l1, Sim h a -> same_tables (h_lib h) l1 -> l_dds l1 = l_dds (h_lib h) -> Sim (hlib h l1) a.
+Proof.
+  intros h a l1 HS [F1 [F2 [F3 F4]]] Hd. constructor; simpl.
+  - apply (Good_ext (h_lib h)); auto. apply (sim_good _ _ HS).
+  - apply (sim_nodup _ _ HS).
+  - intros x. rewrite (sim_repr _ _ HS). split; intros R; (eapply Repr_ext; [| |exact R]); congruence.
+  - apply (sim_sess _ _ HS).
+  - intros Hc. destruct (sim_closed _ _ HS Hc) as [C1 C2]. split; [intros ty; rewrite F1; apply C1 | rewrite F3; assumption].
+  - intros slot. pose proof (sim_slots _ _ HS slot) as X. unfold ANid2tagref in *. rewrite F3. exact X.
+Qed.
+
+Lemma closed_repr_iff : forall l x, Good l -> (forall ty, l_tree l ty = None) -> (Repr l x <-> In x (map ann_of (l_dds l))).
+Proof.
+  intros l [[xt xr] xg xf xtx] [HI HT] Htr. rewrite in_map_iff. unfold Repr. cbn [a_key a_text a_ttag a_tref fst snd]. split.
+  - intros [[T R] [[d [D1 [D2 [D3 [D4 D5]]]]]|[_ [_ [t [e [C _]]]]]]]; [|rewrite Htr in C; discriminate].
+    exists d. split; [|assumption]. unfold ann_of. rewrite D2, ty_of_tag_of_type by assumption. rewrite <- D5. simpl. rewrite D3, D4, D2. reflexivity.
+  - intros [d [E Hd]]. unfold ann_of in E. inversion E; subst xt xr xg xf xtx; clear E.
+    destruct (tf_tags _ HT d Hd) as [ty [Ty Gy]]. rewrite Gy, ty_of_tag_of_type by assumption.
+    split; [split; [assumption | apply (inv_refs _ HI d Hd)]|]. left. exists d. rewrite <- Gy.
+    repeat split; auto. destruct (target_of ty d); reflexivity.
+Qed.
+
+Definition kind_ok (kind : Z) : Prop := kind = DFAN_LABEL \/ kind = DFAN_DESC.
+Lemma kind_facts : forall kind, kind_ok kind ->
+  tyok (dfan_kind_type kind) /\ dfan_tag kind = tag_of_type (dfan_kind_type kind) /\ is_data_type (dfan_kind_type kind) = true /\
+  is_data_tag (dfan_tag kind) = true /\ is_label (dfan_kind_type kind) = (kind =? DFAN_LABEL) /\ ty_of (dfan_tag kind) = dfan_kind_type kind.
+Proof. intros kind [-> | ->]; unfold tyok; repeat split; try reflexivity; try (cbv; intros X; discriminate X). Qed.
+
+(** the annotation a data-annotation descriptor stands for *)
+Definition dann (kind : Z) (d : dd) : ann :=
+  mkann (dfan_kind_type kind, d_ref d) (fst (decode_target (d_data d))) (snd (decode_target (d_data d))) (Some (skipn 4 (d_data d))).
+
+Lemma ann_of_dann : forall kind d, kind_ok kind -> d_tag d = dfan_tag kind -> ann_of d = dann kind d.
+Proof.
+  intros kind d Hk Ht. destruct (kind_facts kind Hk) as [_ [_ [F3 [F4 [_ F6]]]]]. unfold ann_of, dann, target_of, payload_text.
+  rewrite Ht, F6, F3, F4. reflexivity.
+Qed.
+
+Lemma on_target_closed : forall h a kind g r, Sim h a -> h_sess h = false -> kind_ok kind ->
+  forall x, In x (on_target (dfan_kind_type kind) g r (anns a)) <->
+            exists d, In d (l_dds (h_lib h)) /\ d_tag d = dfan_tag kind /\ decode_target (d_data d) = (g, r) /\ x = dann kind d.
+Proof.
+  intros h a kind g r HS Hc Hk x. destruct (sim_closed _ _ HS Hc) as [C1 _]. pose proof (sim_good _ _ HS) as HG.
+  destruct (kind_facts kind Hk) as [F1 [F2 [F3 [F4 [F5 F6]]]]].
+  unfold on_target, of_type. rewrite !filter_In. rewrite (sim_repr _ _ HS), (closed_repr_iff _ _ HG C1), in_map_iff. split.
+  - intros [[[d [E Hd]] Hty] Htg]. subst x. apply Z.eqb_eq in Hty. simpl in Hty.
+    destruct (tf_tags _ (proj2 HG) d Hd) as [ty [Ty Gy]]. rewrite Gy, ty_of_tag_of_type in Hty by assumption. subst ty.
+    assert (Ht : d_tag d = dfan_tag kind) by congruence. exists d. split; [assumption|]. split; [assumption|].
+    rewrite (ann_of_dann kind d Hk Ht) in *. cbn [dann a_ttag a_tref] in Htg. apply andb_true_iff in Htg. destruct Htg as [G1 G2].
+    apply Z.eqb_eq in G1. apply Z.eqb_eq in G2. split; [|reflexivity]. rewrite (surjective_pairing (decode_target (d_data d))). congruence.
+  - intros [d [Hd [Ht [Hdec ->]]]]. rewrite <- (ann_of_dann kind d Hk Ht). split; [split; [exists d; auto|]|].
+    + rewrite (ann_of_dann kind d Hk Ht). simpl. apply Z.eqb_refl.
+    + rewrite (ann_of_dann kind d Hk Ht). cbn [dann a_ttag a_tref]. rewrite Hdec. cbn [fst snd]. rewrite !Z.eqb_refl. reflexivity.
+Qed.
+
+(* ================= 4. the relation with the directory, results, and the read-only DFAN calls ================= *)
+Definition SimD (h : hstate) (a : state) : Prop := Sim h a /\ (h_sess h = false -> DirOK (h_lib h)).
+
+(** results of the whole operation language: as [accepts], plus "one of" for the length calls and "up to order"
+    for the enumeration of file labels / descriptions *)
+Definition accepts_full (sr : res) (mr : mres) : Prop :=
+  accepts sr mr \/
+  (exists vs v, sr = ROneOf vs /\ mr = MOk [v] [] /\ In v vs) \/
+  (exists n bs ts, sr = ROk [n] bs /\ mr = MOk [n] ts /\ Permutation (map (fun t => [t]) ts) bs).
+
+Definition dfan_op (o : op) : Prop :=
+  match o with
+  | ODfPut kind g r _ _ => kind_ok kind /\ u16 g /\ u16 r
+  | ODfGet kind _ _ _ | ODfGetLen kind _ _ | ODfAddF kind _ _ | ODfGetFs kind => kind_ok kind
+  | ODfLablist _ _ => True
+  | _ => False
+  end.
+
+Lemma DirOK_ext : forall l l', DirOK l -> l_dir l' = l_dir l -> l_dds l' = l_dds l -> DirOK l'.
+Proof. intros l l' H Hd Hdd k b Hk Hb. rewrite Hd in Hb. rewrite Hdd. apply (H k b Hk Hb). Qed.
+
+Lemma sim_dfget : forall h a kind g r maxlen h' mr a' sr, SimD h a -> kind_ok kind ->
+  mstep h (ODfGet kind g r maxlen) = (h', mr) -> step a (ODfGet kind g r maxlen) = (a', sr) ->
+  sr = RUnspec \/ (SimD h' a' /\ accepts_full sr mr).
+Proof.
+  intros h a kind g r maxlen h' mr a' sr [HS HD] Hk HM HSp. unfold mstep in HM. cbv beta iota zeta in HM. simpl in HSp.
+  rewrite (sim_sess _ _ HS) in HSp. destruct (h_sess h) eqn:Es; [inversion HSp; left; reflexivity|]. specialize (HD eq_refl).
+  pose proof (sim_good _ _ HS) as [HI HT].
+  destruct ((g =? 0) || (r =? 0)) eqn:Ez.
+  { unfold DFANIgetann in HM. rewrite Ez in HM. inversion HM; inversion HSp; subst. right. split; [|left; exact I].
+    split; [destruct h; exact HS | intros _; exact HD]. }
+  apply orb_false_iff in Ez. destruct Ez as [Eg Er]. apply Z.eqb_neq in Eg. apply Z.eqb_neq in Er.
+  destruct (DFANIlocate (h_lib h) kind g r) as [s1 found] eqn:El.
+  destruct (locate_spec _ _ _ _ _ _ Hk Eg HD (inv_refs _ HI) El) as [HD1 [Hdd [F [_ [Hf1 [Hf0 _]]]]]].
+  pose proof (Sim_transfer h a s1 HS F Hdd) as HS1.
+  destruct (Z.eq_dec found 0) as [E0|N0].
+  - (* no annotation of that object *)
+    assert (HM' : DFANIgetann (h_lib h) kind g r maxlen = (s1, None)).
+    { unfold DFANIgetann. rewrite (proj2 (Z.eqb_neq g 0) Eg), (proj2 (Z.eqb_neq r 0) Er). cbn [orb]. rewrite El, E0. reflexivity. }
+    rewrite HM' in HM. inversion HM; subst h' mr.
+    assert (Hnil : on_target (dfan_kind_type kind) g r (anns a) = []).
+    { destruct (on_target (dfan_kind_type kind) g r (anns a)) as [|x l] eqn:E; [reflexivity|]. exfalso.
+      assert (Hin : In x (x :: l)) by (left; reflexivity). rewrite <- E in Hin.
+      apply (on_target_closed h a kind g r HS Es Hk) in Hin. destruct Hin as [d [D1 [D2 [D3 _]]]]. apply (Hf0 E0 d D1 D2 D3). }
+    rewrite Hnil in HSp. inversion HSp; subst. right. split; [split; [assumption | intros _; assumption] | left; exact I].
+  - destruct (Hf1 N0) as [d [D1 [D2 [D3 D4]]]].
+    assert (Hh : hfind (dfan_tag kind) found (l_dds s1) = Some d) by (rewrite Hdd; apply hfind_In; [apply (tf_nodup _ HT) | assumption | assumption | assumption]).
+    destruct (kind_facts kind Hk) as [_ [_ [_ [F4 [F5 _]]]]].
+    assert (H4 : 4 <= zlen (d_data d)) by (apply (tf_len _ HT d D1); rewrite D2; exact F4).
+    assert (Hx : In (dann kind d) (on_target (dfan_kind_type kind) g r (anns a))).
+    { apply (on_target_closed h a kind g r HS Es Hk). exists d. auto. }
+    destruct (on_target (dfan_kind_type kind) g r (anns a)) as [|x0 l0] eqn:E; [contradiction|].
+    destruct (maxlen <? 1) eqn:Em; [inversion HSp; left; reflexivity|]. apply Z.ltb_ge in Em.
+    destruct (DFANIgetann_found _ _ _ _ maxlen _ _ d Eg Er Em El N0 Hh H4) as [R1 _]. rewrite R1 in HM.
+    inversion HM; inversion HSp; subst h' mr a' sr. right. split.
+    + split; [apply (Sim_transfer (hlib h s1) a (set_lastref s1 found) HS1); [repeat split | reflexivity] | intros _; apply (DirOK_ext s1); auto].
+    + left. unfold accepts. split; [left; reflexivity|]. constructor; [|constructor].
+      destruct Hx as [Ex|Hx]; [left; rewrite Ex; reflexivity | right; exact (in_map (fun a0 => buffer_image (kind =? DFAN_LABEL) (text_of a0) maxlen) _ _ Hx)].
+Qed.
+
+Lemma sim_dfgetlen : forall h a kind g r h' mr a' sr, SimD h a -> kind_ok kind ->
+  mstep h (ODfGetLen kind g r) = (h', mr) -> step a (ODfGetLen kind g r) = (a', sr) ->
+  sr = RUnspec \/ (SimD h' a' /\ accepts_full sr mr).
+Proof.
+  intros h a kind g r h' mr a' sr [HS HD] Hk HM HSp. unfold mstep in HM. cbv beta iota zeta in HM. simpl in HSp.
+  rewrite (sim_sess _ _ HS) in HSp. destruct (h_sess h) eqn:Es; [inversion HSp; left; reflexivity|]. specialize (HD eq_refl).
+  pose proof (sim_good _ _ HS) as [HI HT].
+  destruct ((g =? 0) || (r =? 0)) eqn:Ez.
+  { unfold DFANIgetannlen in HM. rewrite Ez in HM. simpl in HM. inversion HM; inversion HSp; subst. right. split; [|left; exact I].
+    split; [destruct h; exact HS | intros _; exact HD]. }
+  apply orb_false_iff in Ez. destruct Ez as [Eg Er]. apply Z.eqb_neq in Eg. apply Z.eqb_neq in Er.
+  destruct (DFANIlocate (h_lib h) kind g r) as [s1 found] eqn:El.
+  destruct (locate_spec _ _ _ _ _ _ Hk Eg HD (inv_refs _ HI) El) as [HD1 [Hdd [F [_ [Hf1 [Hf0 _]]]]]].
+  pose proof (Sim_transfer h a s1 HS F Hdd) as HS1.
+  destruct (Z.eq_dec found 0) as [E0|N0].
+  - assert (HM' : DFANIgetannlen (h_lib h) kind g r = (s1, FAILV)).
+    { unfold DFANIgetannlen. rewrite (proj2 (Z.eqb_neq g 0) Eg), (proj2 (Z.eqb_neq r 0) Er). cbn [orb]. rewrite El, E0. reflexivity. }
+    rewrite HM' in HM. simpl in HM. inversion HM; subst h' mr.
+    assert (Hnil : on_target (dfan_kind_type kind) g r (anns a) = []).
+    { destruct (on_target (dfan_kind_type kind) g r (anns a)) as [|x l] eqn:E; [reflexivity|]. exfalso.
+      assert (Hin : In x (x :: l)) by (left; reflexivity). rewrite <- E in Hin.
+      apply (on_target_closed h a kind g r HS Es Hk) in Hin. destruct Hin as [d [D1 [D2 [D3 _]]]]. apply (Hf0 E0 d D1 D2 D3). }
+    rewrite Hnil in HSp. inversion HSp; subst. right. split; [split; [assumption | intros _; assumption] | left; exact I].
+  - destruct (Hf1 N0) as [d [D1 [D2 [D3 D4]]]].
+    assert (Hh : hfind (dfan_tag kind) found (l_dds s1) = Some d) by (rewrite Hdd; apply hfind_In; [apply (tf_nodup _ HT) | assumption | assumption | assumption]).
+    destruct (kind_facts kind Hk) as [_ [_ [_ [F4 [F5 _]]]]].
+    assert (H4 : 4 <= zlen (d_data d)) by (apply (tf_len _ HT d D1); rewrite D2; exact F4).
+    assert (Hx : In (dann kind d) (on_target (dfan_kind_type kind) g r (anns a))).
+    { apply (on_target_closed h a kind g r HS Es Hk). exists d. auto. }
+    destruct (on_target (dfan_kind_type kind) g r (anns a)) as [|x0 l0] eqn:E; [contradiction|].
+    destruct (DFANIgetann_found _ _ _ _ 1 _ _ d Eg Er ltac:(lia) El N0 Hh H4) as [_ R2]. rewrite R2 in HM.
+    assert (Hn : (zlen (skipn 4 (d_data d)) =? FAILV) = false) by (apply Z.eqb_neq; unfold zlen, FAILV; lia). rewrite Hn in HM.
+    inversion HM; inversion HSp; subst h' mr a' sr. right. split.
+    + split; [apply (Sim_transfer (hlib h s1) a (set_lastref s1 found) HS1); [repeat split | reflexivity] | intros _; apply (DirOK_ext s1); auto].
+    + right. left. eexists _, _. split; [reflexivity|]. split; [reflexivity|].
+      destruct Hx as [Ex|Hx]; [left; rewrite Ex; reflexivity | right; exact (in_map (fun a0 => zlen (text_of a0)) _ _ Hx)].
+Qed.
